@@ -196,7 +196,7 @@ pub enum Rec {
     },
     /// Stateless transmit by an endpoint (reset, version negotiation, refusal, retry)
     TxEp { t: u64, ep: usize, dst: SocketAddr, size: usize, inciting_size: usize, dgram: DgRec },
-    Rx { t: u64, ep: usize, from: SocketAddr, dgram_id: u64, origin_conn: Option<usize>, size: usize, routed: Routed, copy: u32, corrupted: bool },
+    Rx { t: u64, ep: usize, from: SocketAddr, dgram_id: u64, origin_conn: Option<usize>, size: usize, routed: Routed, copy: u32, corrupted: bool, injected: bool },
     Ev { t: u64, conn: usize, ev: String },
     Timeout { t: u64, conn: usize, deadline: u64, spurious: bool },
     Drained { t: u64, conn: usize },
@@ -260,6 +260,8 @@ pub struct InFlight {
     pub origin_conn: Option<usize>,
     pub copy: u32,
     pub corrupted: bool,
+    /// put on the link by the attacker / the check rather than by the fault stream
+    pub injected: bool,
 }
 
 impl PartialEq for InFlight {
@@ -366,6 +368,11 @@ pub struct World {
     pub blackhole_at: Option<u64>,
     /// sample total_authed_packets around every delivery (costly; used by C08)
     pub track_auth: bool,
+    /// attacker plan, applied to copies of genuine datagrams in emission order
+    pub attacks: Vec<Attack>,
+    pub attack_log: Vec<(u64, String)>,
+    /// last 16 bytes of every datagram the attacker put on the link
+    pub attack_tails: Vec<Vec<u8>>,
     pub client_token_store: Option<Arc<dyn quinn_proto::TokenStore>>,
     pub server_token_log: Option<Arc<dyn quinn_proto::TokenLog>>,
 }
@@ -438,6 +445,9 @@ impl World {
             dgram_frames: BTreeMap::new(),
             blackhole_at: None,
             track_auth: false,
+            attacks: vec![],
+            attack_log: vec![],
+            attack_tails: vec![],
             client_token_store: None,
             server_token_log: None,
             spec,
@@ -715,7 +725,10 @@ impl World {
         {
             self.faults_done_at = Some(self.now);
         }
-        let base = InFlight { at: self.now + lat, seq: 0, to, from, ecn, bytes, dgram_id: id, origin_conn: conn, copy: 0, corrupted: false };
+        let base = InFlight { at: self.now + lat, seq: 0, to, from, ecn, bytes, dgram_id: id, origin_conn: conn, copy: 0, corrupted: false, injected: false };
+        if !self.attacks.is_empty() {
+            self.apply_attacks(id, from_ep, conn, &base);
+        }
         if f != Fault::Deliver {
             self.last_fault_at = self.now;
         }
@@ -780,6 +793,107 @@ impl World {
         rec
     }
 
+    /// The CID `conn`'s peer currently uses as destination when sending to `conn`'s endpoint is not
+    /// needed here; what an attacker needs is the CID `victim` sends to: taken from the victim's
+    /// most recent short-header packet (falls back to long-header packets).
+    pub fn dcid_in_use_by(&self, victim: usize) -> Option<Vec<u8>> {
+        let mut long: Option<Vec<u8>> = None;
+        for r in self.trace.iter().rev() {
+            if let Rec::Tx { conn, dgrams, .. } = r {
+                if *conn == victim {
+                    for p in dgrams.iter().flat_map(|d| d.pkts.iter()) {
+                        if p.ty == wire::PktType::Short && !p.dcid.is_empty() {
+                            return Some(p.dcid.clone());
+                        }
+                        if long.is_none() && !p.dcid.is_empty() {
+                            long = Some(p.dcid.clone());
+                        }
+                    }
+                }
+            }
+        }
+        long
+    }
+
+    fn apply_attacks(&mut self, id: u64, from_ep: usize, conn: Option<usize>, base: &InFlight) {
+        let todo: Vec<Attack> = self.attacks.iter().filter(|a| a.on as u64 == id).cloned().collect();
+        for a in todo {
+            let mut c = base.clone();
+            c.injected = true;
+            c.copy = 100;
+            c.at = base.at + a.delay_us as u64;
+            match &a.kind {
+                AttackKind::Replay { times } => {
+                    for i in 0..*times as u64 {
+                        let mut d = c.clone();
+                        d.at += i * a.delay_us as u64;
+                        self.attack_log.push((id, format!("replay copy {} at {}", i, d.at)));
+                        self.push(d);
+                    }
+                    continue;
+                }
+                AttackKind::Corrupt(k) => {
+                    k.apply(&mut c.bytes);
+                    c.corrupted = true;
+                    if c.bytes.is_empty() || c.bytes == base.bytes {
+                        continue;
+                    }
+                    self.attack_log.push((id, format!("corrupt {k:?}")));
+                }
+                AttackKind::ResetSuffix(choice) => {
+                    // victim = the connection that receives this datagram = peer of `conn`
+                    let Some(sender) = conn else { continue };
+                    let Some(victim) = self.conns[sender].peer.or_else(|| self.conns.iter().position(|o| o.peer == Some(sender))) else { continue };
+                    let Some(cid) = self.dcid_in_use_by(victim) else { continue };
+                    let mut token = self.reset_token_for(from_ep, &cid);
+                    match choice {
+                        TokenChoice::ExactCurrent => {}
+                        TokenChoice::OtherCid(s) => {
+                            let mut other = cid.clone();
+                            other[0] ^= (*s as u8) | 1;
+                            token = self.reset_token_for(from_ep, &other);
+                        }
+                        TokenChoice::NearMiss(bit) => token[(*bit as usize / 8) % 16] ^= 1 << (bit % 8),
+                    }
+                    if c.bytes.len() < 22 {
+                        c.bytes.resize(40, 0x3c);
+                    }
+                    let n = c.bytes.len();
+                    c.bytes[n - 16..].copy_from_slice(&token);
+                    // make sure it cannot authenticate as a genuine packet: flip a payload bit
+                    let i = (n / 2).min(n - 17).max(1);
+                    c.bytes[i] ^= 0x10;
+                    c.bytes[0] &= 0x7f; // short header form
+                    c.bytes[0] |= 0x40;
+                    c.corrupted = true;
+                    self.attack_log.push((id, format!("reset-suffix {choice:?} victim {victim}")));
+                }
+                AttackKind::SpliceCid => {
+                    let Some(sender) = conn else { continue };
+                    // another connection of the same side
+                    let other = self.conns.iter().position(|o| o.side == self.conns[sender].side && !std::ptr::eq(o, &self.conns[sender]) && !o.gone);
+                    let Some(other) = other else { continue };
+                    let (Some(mine), Some(theirs)) = (self.dcid_in_use_by(sender), self.dcid_in_use_by(other)) else { continue };
+                    if mine.len() != theirs.len() || mine.is_empty() || c.bytes[0] & 0x80 != 0 || c.bytes.len() < 1 + mine.len() {
+                        continue;
+                    }
+                    c.bytes[1..1 + theirs.len()].copy_from_slice(&theirs);
+                    c.corrupted = true;
+                    self.attack_log.push((id, format!("splice conn {sender} packet under conn {other} cid")));
+                }
+                AttackKind::FromOtherAddr { port_only } => {
+                    c.from = if *port_only { SocketAddr::new(base.from.ip(), base.from.port() ^ 0x155) } else { addr_v6(0x66, 6666) };
+                    self.attack_log.push((id, format!("copy from {}", c.from)));
+                }
+            }
+            if c.bytes.len() >= 16 {
+                let tail: Vec<u8> = c.bytes[c.bytes.len() - 16..].to_vec();
+                self.attack_tails.push(tail);
+            }
+            self.push(c);
+        }
+    }
+
     pub fn push(&mut self, mut f: InFlight) {
         f.seq = self.seq;
         self.seq += 1;
@@ -790,7 +904,7 @@ impl World {
     pub fn inject(&mut self, at: u64, to: SocketAddr, from: SocketAddr, bytes: Vec<u8>) -> u64 {
         let id = self.next_dgram_id;
         self.next_dgram_id += 1;
-        self.push(InFlight { at, seq: 0, to, from, ecn: None, bytes, dgram_id: id, origin_conn: None, copy: 0, corrupted: true });
+        self.push(InFlight { at, seq: 0, to, from, ecn: None, bytes, dgram_id: id, origin_conn: None, copy: 0, corrupted: true, injected: true });
         id
     }
 
@@ -978,7 +1092,7 @@ impl World {
         let Some(ep) = self.ep_of_addr(&f.to) else {
             self.stats.no_endpoint += 1;
             if self.record {
-                self.trace.push(Rec::Rx { t: self.now, ep: usize::MAX, from: f.from, dgram_id: f.dgram_id, origin_conn: f.origin_conn, size: f.bytes.len(), routed: Routed::NoEndpoint, copy: f.copy, corrupted: f.corrupted });
+                self.trace.push(Rec::Rx { t: self.now, ep: usize::MAX, from: f.from, dgram_id: f.dgram_id, origin_conn: f.origin_conn, size: f.bytes.len(), routed: Routed::NoEndpoint, copy: f.copy, corrupted: f.corrupted, injected: f.injected });
             }
             return;
         };
@@ -1045,7 +1159,7 @@ impl World {
             None => Routed::Nothing,
         };
         if self.record {
-            self.trace.push(Rec::Rx { t: self.now, ep, from: f.from, dgram_id: f.dgram_id, origin_conn: f.origin_conn, size, routed, copy: f.copy, corrupted: f.corrupted });
+            self.trace.push(Rec::Rx { t: self.now, ep, from: f.from, dgram_id: f.dgram_id, origin_conn: f.origin_conn, size, routed, copy: f.copy, corrupted: f.corrupted, injected: f.injected });
         }
     }
 
